@@ -1372,6 +1372,11 @@ func SupportedTcbLevelsFromCollateral(quote any, options *Options) (pcs.TcbLevel
 	if options == nil {
 		return pcs.TcbLevel{}, pcs.TcbLevel{}, ErrOptionsNil
 	}
+	if options.Now == nil {
+		withNow := *options
+		withNow.Now = defaultTimeSet()
+		options = &withNow
+	}
 	if err := verifyCollateral(options); err != nil {
 		return pcs.TcbLevel{}, pcs.TcbLevel{}, err
 	}
@@ -1442,7 +1447,10 @@ func tdxQuoteV4(quote *pb.QuoteV4, options *Options) error {
 	options.pckCertExtensions = exts
 	options.chain = chain
 	if options.Now == nil {
-		options.Now = defaultTimeSet()
+		// Judge at the time of this call without pinning that time in the caller's options.
+		withNow := *options
+		withNow.Now = defaultTimeSet()
+		return verifyEvidenceV4(quote, &withNow)
 	}
 	return verifyEvidenceV4(quote, options)
 }
